@@ -118,9 +118,22 @@ enum Real {
     Panic,
 }
 
+fn v_reject_all(_p: &[u8]) -> Result<(), rbpf::lib::Error> {
+    Err(rbpf::lib::Error::other("harness: rejects everything"))
+}
+const HELD: [u8; 16] = [0xb7, 0, 0, 0, 1, 0, 0, 0, 0x95, 0, 0, 0, 0, 0, 0, 0];
+
 fn real_verify(kind: Kind, prog: &[u8], via_set: bool) -> (Real, String) {
     let r = sys::catch(|| {
-        if via_set {
+        if via_set && prog.len() % 24 == 8 {
+            // a VM that holds a program and on which a set_verifier() call FAILED (the candidate
+            // refuses the loaded program): the default verifier must still be the one in force
+            let mut vm = Vm::new(kind, Some(&HELD), (0, 8)).map_err(|e| format!("new(held) failed: {e}"))?;
+            if vm.set_verifier(v_reject_all).is_ok() {
+                return Err("set_verifier(reject-all) succeeded on a VM holding a program".to_string());
+            }
+            vm.set_program(prog, (0, 8))
+        } else if via_set {
             let mut vm = Vm::new(kind, None, (0, 8)).map_err(|e| format!("new(None) failed: {e}"))?;
             vm.set_program(prog, (0, 8))
         } else {
